@@ -94,8 +94,8 @@ Theorem C10_progress_callable_iff_true : forall classify ecls fl s req reg args 
   (fl = Tx \/ defers d = false) -> gate_of d = None ->
   exists s' rest,
     step classify ecls fl s (OInvocation req reg args caller rp b) =
-      (s', OAccepted (nextk s) req reg args caller rp (r_details d)
-           :: OCalled (nextk s) req reg args
+      (s', OAccepted (nextk s) req reg (with_self d args) caller rp (r_details d)
+           :: OCalled (nextk s) req reg (with_self d args)
                 (if r_details d then Some (eff_details reg caller, r_details d && match rp with Some true => true | Some false => false | None => false end) else None) :: rest)
     /\ nocalls rest.
 Proof. exact args_fidelity. Qed.
@@ -120,8 +120,8 @@ Theorem C10_progress_before_terminal_partial : forall classify ecls fl s req reg
   (fl = Tx \/ defers d = false) -> gate_of d = None ->
   exists s' body cb,
     step classify ecls fl s (OInvocation req reg args caller rp b) =
-      (s', OAccepted (nextk s) req reg args caller rp (r_details d)
-           :: OCalled (nextk s) req reg args (if r_details d then Some (eff_details reg caller, r_details d && rp_on rp) else None) :: body ++ cb)
+      (s', OAccepted (nextk s) req reg (with_self d args) caller rp (r_details d)
+           :: OCalled (nextk s) req reg (with_self d args) (if r_details d then Some (eff_details reg caller, r_details d && rp_on rp) else None) :: body ++ cb)
     /\ quiet body /\ noprogs cb.
 Proof. exact progress_sync_before_terminal. Qed.
 Print Assumptions C10_progress_before_terminal_partial.
@@ -178,10 +178,27 @@ Theorem C10_unfit_arguments_rejected : forall classify ecls s req reg args calle
   classify_ok classify -> up s = true -> joined s = true -> amem req (invs s) = false ->
   alookup reg (regs s) = Some d -> gate_of d = Some e ->
   exists s', step classify ecls Tx s (OInvocation req reg args caller rp b) =
-      (s', [OAccepted (nextk s) req reg args caller rp (r_details d); OSent (MError req (uri_of ecls e) PText)])
+      (s', [OAccepted (nextk s) req reg (with_self d args) caller rp (r_details d); OSent (MError req (uri_of ecls e) PText)])
     /\ amem req (invs s') = false.
 Proof. exact gated_call_rejected_tx. Qed.
 Print Assumptions C10_unfit_arguments_rejected.
+
+(* session.register(obj, options=call_opts): each decorated method is registered with ITS OWN decorator options if it
+   has any, else with the call-level ones -- independently of the other methods and of their order -- and carries the
+   instance as an opaque identity ([r_obj]); the endpoint is then entered with that instance first ([with_self] in
+   C10_args_fidelity_step), whatever its truth value, equality or hash. *)
+Theorem C10_object_registration_options : forall obj call_opts methods reg own coro,
+  In (reg, own, coro) methods ->
+  In (ORegister reg {| r_details := match own with Some b => b | None => match call_opts with Some b => b | None => false end end;
+                       r_coro := coro; r_check := false; r_sig := SigOk; r_obj := Some obj |})
+     (reg_object obj call_opts methods).
+Proof. exact reg_object_method. Qed.
+Print Assumptions C10_object_registration_options.
+Theorem C10_object_registration_order : forall obj call_opts methods,
+  map (fun o => match o with ORegister reg _ => reg | _ => 0 end) (reg_object obj call_opts methods)
+  = map (fun m => fst (fst m)) methods.
+Proof. exact reg_object_shape. Qed.
+Print Assumptions C10_object_registration_order.
 
 (* Over every history: whenever an endpoint body is entered, it is with exactly the arguments (request, registration,
    args/kwargs token) of an INVOCATION accepted before under the same call index, and with CallDetails
@@ -202,18 +219,18 @@ Theorem C10_args_fidelity_step : forall classify ecls fl s req reg args caller r
   (fl = Tx \/ defers d = false) -> gate_of d = None ->
   exists s' rest,
     step classify ecls fl s (OInvocation req reg args caller rp b) =
-      (s', OAccepted (nextk s) req reg args caller rp (r_details d)
-           :: OCalled (nextk s) req reg args (if r_details d then Some (eff_details reg caller, r_details d && rp_on rp) else None) :: rest)
+      (s', OAccepted (nextk s) req reg (with_self d args) caller rp (r_details d)
+           :: OCalled (nextk s) req reg (with_self d args) (if r_details d then Some (eff_details reg caller, r_details d && rp_on rp) else None) :: rest)
     /\ nocalls rest.
 Proof. exact args_fidelity. Qed.
 Print Assumptions C10_args_fidelity_step.
 Theorem C10_args_fidelity_aio_coroutine : forall classify ecls s req reg args caller rp b d,
   joined s = true -> amem req (invs s) = false -> alookup reg (regs s) = Some d -> defers d = true ->
   (exists s', step classify ecls Aio s (OInvocation req reg args caller rp b) =
-      (s', [OAccepted (nextk s) req reg args caller rp (r_details d)])
+      (s', [OAccepted (nextk s) req reg (with_self d args) caller rp (r_details d)])
     /\ queue s' = queue s ++ [QStep (nextk s)]
     /\ alookup (nextk s) (calls s') =
-         Some {| c_req := req; c_reg := reg; c_args := args;
+         Some {| c_req := req; c_reg := reg; c_args := with_self d args;
                  c_det := if r_details d then Some (eff_details reg caller, r_details d && rp_on rp) else None;
                  c_clos := r_details d && rp_on rp; c_st := CFresh b false; c_gate := gate_of d |})
   /\ (forall s1 k c b1, alookup k (calls s1) = Some c -> c_st c = CFresh b1 false -> c_gate c = None ->
@@ -273,4 +290,12 @@ Example C10_witness_receive_progress_tristate : forall fl,
   filter (fun o => match o with OSent _ => true | _ => false end) (snd (run ws_send [] fl init h_tristate)) =
     [OSent (MError 1 URuntime PText); OSent (MError 2 URuntime PText);
      OSent (MYield 3 false (V 1) true); OSent (MYield 3 true (V 23) false)].
+Proof. intros []; vm_compute; reflexivity. Qed.
+
+(* object registration: own options beat call-level options per method; the instance is passed as self *)
+Example C10_witness_object_registration : forall fl,
+  filter (fun o => match o with OCalled _ _ _ _ _ => true | _ => false end) (snd (run ws_send [] fl init h_object)) =
+    [OCalled 0 1 100 (PSelf 9 (V 11)) (Some (D7, false));
+     OCalled 1 2 101 (PSelf 9 (V 12)) (Some ((Some 7, None, 101), false));
+     OCalled 2 3 102 (PSelf 9 (V 13)) None].
 Proof. intros []; vm_compute; reflexivity. Qed.
